@@ -31,7 +31,7 @@ func (e *CEnv) state() *State {
 }
 
 func (ex *Exec) cerr(f string, a ...interface{}) {
-	msg := "CONTRACT-STALE: " + fmt.Sprintf(f, a...)
+	msg := "CONTRACT-STALE: " + fmt.Sprintf(f, a...) + " [while verifying " + shortKey(ex.curKey) + "]"
 	for _, e := range ex.errs {
 		if e == msg {
 			return
@@ -345,10 +345,7 @@ func (ex *Exec) evalIdent(name string, env *CEnv, want string) TV {
 		}
 		return v
 	}
-	if g, ok := ex.lib.Ghosts[name]; ok {
-		if !tagActive(g.Tags, ex.prop) {
-			ex.cerr("ghost %s is not active for %s", name, ex.prop)
-		}
+	if _, ok := ex.lib.Ghosts[name]; ok {
 		return TV{V: ex.ghostVal(env.state(), name)}
 	}
 	if c, ok := specConsts[name]; ok {
